@@ -749,6 +749,8 @@ def cases(tier, seed):
                     continue
                 zsets = [[], [[0, 0]], [[1, shape[1] - 1]]]
                 for z in zsets:
+                    if any(shape[ax] == 1 for ax, _ in z):
+                        continue        # would zero the whole tensor; the zero tensor has its own cases below
                     for algo in ("grou", "gta"):
                         for fmt in ("A", "T"):
                             for Rmax in sorted({1, r, r + 1, len(shape) * (r - 1) + 1}):
